@@ -1,3 +1,310 @@
-From Coq Require Import NArith List Bool Arith Lia.
-From Verif.C18_Timed Require Import Model.
+(* C18 - safety theorems for all schedules: never early, at most once, cancel honoured.
+   The invariant [Inv] is proved on micro steps (Micro.v) and lifted to [run]. *)
+From Coq Require Import NArith List Bool Arith Lia Relations.
+From Verif.C18_Timed Require Import Model Heap Micro.
 Import ListNotations.
+
+Fixpoint cntD (k : nat) (l : list ev) : nat :=
+  match l with
+  | [] => 0
+  | EDeliver e _ :: r => b2n (e =? k) + cntD k r
+  | _ :: r => cntD k r
+  end.
+
+Record Inv (s : st) : Prop := {
+  i_pend : forall x, In x (pend s) -> eid x < nxt s /\ due_of (eid x) (log s) = Some (etime x);
+  i_due : forall e d, due_of e (log s) = Some d -> e < nxt s;
+  i_ign : fignore s = true -> exists i, ignore_at (log s) = Some i /\ (i <= now s)%N;
+  i_ign2 : forall i, ignore_at (log s) = Some i -> shut s = true;
+  i_ne : forall e a, In (EDeliver e a) (log s) ->
+         (a <= now s)%N /\ exists d, due_of e (log s) = Some d /\
+           ((d <= a)%N \/ exists i, ignore_at (log s) = Some i /\ (i <= a)%N);
+  i_once : forall k, cnt (fun x => eid x =? k) (pend s) + cntD k (log s) <= 1;
+  i_can : forall e r a, In (ECancel e r a) (log s) -> memb e (closed s) = true /\ (a <= now s)%N /\ e < nxt s;
+  i_ord : recheck s = true -> forall e a r c,
+          In (EDeliver e a) (log s) -> In (ECancel e r c) (log s) -> (a <= c)%N
+}.
+
+(* ---------- small facts ---------- *)
+
+Lemma nonspecial_due e ev l : special ev = false -> due_of e (ev :: l) = due_of e l.
+Proof. destruct ev; simpl; auto; discriminate. Qed.
+Lemma nonspecial_ign ev l : special ev = false -> ignore_at (ev :: l) = ignore_at l.
+Proof. destruct ev; simpl; auto; discriminate. Qed.
+Lemma nonspecial_cntD k ev l : special ev = false -> cntD k (ev :: l) = cntD k l.
+Proof. destruct ev; simpl; auto; discriminate. Qed.
+
+Lemma shrink_incl s s' : shrink s s' -> incl (pend s') (pend s).
+Proof. intros H. apply in_of_cnt. exact H. Qed.
+
+Lemma cnt_zero p l : (forall x, In x l -> p x = false) -> cnt p l = 0.
+Proof.
+  induction l; intros H; [reflexivity|]. rewrite cnt_cons, (H a (or_introl eq_refl)). simpl.
+  apply IHl. intros x Hx. apply H. right; auto.
+Qed.
+
+Lemma cntD_pos k l : 0 < cntD k l -> exists a, In (EDeliver k a) l.
+Proof.
+  induction l as [|ev r]; simpl; [lia|]. destruct ev; try (intros H; destruct (IHr H) as [a Ha]; exists a; auto).
+  destruct (e =? k) eqn:E; simpl; intros H.
+  - apply Nat.eqb_eq in E; subst. exists at_; auto.
+  - destruct (IHr H) as [a Ha]; exists a; auto.
+Qed.
+
+Lemma grow_in (l l' : list elem) x :
+  (forall p, cnt p l' = cnt p l + b2n (p x)) -> forall y, In y l' -> y = x \/ In y l.
+Proof.
+  intros H y Hy. specialize (H (fun z => elem_eqb z y)). cbv beta in H.
+  assert (0 < cnt (fun z => elem_eqb z y) l') by (eapply in_cnt_pos; eauto; apply elem_eqb_eq; auto).
+  destruct (elem_eqb x y) eqn:E.
+  - apply elem_eqb_eq in E; auto.
+  - simpl in H. destruct (cnt_pos_in (fun z => elem_eqb z y) l) as (z & Hz & E'); [lia|].
+    apply elem_eqb_eq in E'; subst; auto.
+Qed.
+
+(* ---------- the invariant is preserved by every micro step ---------- *)
+
+Lemma inv_micro s s' : micro s s' -> Inv s -> Inv s'.
+Proof.
+  intros M I. destruct I as [Ip Id Ig Ig2 Ine Io Ic Ior].
+  destruct M as [s s' Hn Hx [Fs [Fi [Fc Fr]]] Cm Sh Hl
+                |s s' ev Sp [Hn [Hx [[Fs [Fi [Fc Fr]]] Cm]]] Sh Hl
+                |s s' x [Hn [Hx [[Fs [Fi [Fc Fr]]] Cm]]] Hin Hc Hl Hd Hr
+                |s s' e r [Hn [Hx [[Fs [Fi [Fc Fr]]] Cm]]] Sh He Hl Hm
+                |s s' fc fi Hn Hx Cm Sh S0 S1 Fi Fr Hl
+                |s s' x [Hn [Hx [[Fs [Fi [Fc Fr]]] Cm]]] He Hc Hl].
+  - (* quiet *)
+    constructor; rewrite ?Hl, ?Hx, ?Fs, ?Fi, ?Fr.
+    + intros x Hin. apply Ip. apply (shrink_incl _ _ Sh); auto.
+    + auto.
+    + intros F. destruct (Ig F) as (i & E & L). exists i; split; auto. lia.
+    + auto.
+    + intros e a H. destruct (Ine e a H) as (L & R). split; auto. lia.
+    + intros k. specialize (Io k). specialize (Sh (fun x => eid x =? k)). lia.
+    + intros e r a H. destruct (Ic e r a H) as (A & B & C). repeat split; auto. lia.
+    + auto.
+  - (* non-special event *)
+    constructor; rewrite ?Hl, ?Hx, ?Fs, ?Fi, ?Fr, ?Hn.
+    + intros x Hin. rewrite nonspecial_due by auto. apply Ip. apply (shrink_incl _ _ Sh); auto.
+    + intros e d. rewrite nonspecial_due by auto. apply Id.
+    + rewrite nonspecial_ign by auto. auto.
+    + rewrite nonspecial_ign by auto. auto.
+    + intros e a [H|H]; [subst ev; discriminate|]. rewrite nonspecial_due, nonspecial_ign by auto. auto.
+    + intros k. rewrite nonspecial_cntD by auto. specialize (Io k). specialize (Sh (fun x => eid x =? k)). lia.
+    + intros e r a [H|H]; [subst ev; discriminate|]. destruct (Ic e r a H) as (A & B & C). auto.
+    + intros R e a r c [H|H]; [subst ev; discriminate|]. intros [H'|H']; [subst ev; discriminate|]. eapply Ior; eauto.
+  - (* deliver *)
+    assert (Inc : incl (pend s') (pend s)).
+    { apply in_of_cnt. intros p. specialize (Hc p). lia. }
+    destruct (Ip x Hin) as [Lx Dx].
+    constructor; rewrite ?Hl, ?Hx, ?Fs, ?Fi, ?Fr, ?Hn.
+    + intros y Hy. simpl. apply Ip. apply Inc; auto.
+    + intros e d. simpl. apply Id.
+    + simpl. auto.
+    + simpl. auto.
+    + intros e a [H|H].
+      * inversion H; subst e a. split; [lia|]. simpl. exists (etime x). split; auto.
+        destruct Hd as [Hd|[Hs Hf]].
+        -- left. unfold is_due in Hd. apply N.leb_le in Hd. auto.
+        -- right. destruct (Ig Hf) as (i & E & L). exists i; auto.
+      * simpl. auto.
+    + intros k. simpl. specialize (Io k). specialize (Hc (fun y => eid y =? k)). cbv beta in Hc. lia.
+    + intros e r a [H|H]; [discriminate|]. destruct (Ic e r a H) as (A & B & C). auto.
+    + intros R e a r c [H|H] [H'|H']; try discriminate.
+      * inversion H; subst e a. destruct (Ic _ _ _ H') as (A & _). rewrite (Hr R) in A. discriminate.
+      * eapply Ior; eauto.
+  - (* cancel *)
+    constructor; rewrite ?Hl, ?Hx, ?Fs, ?Fi, ?Fr, ?Hn.
+    + intros y Hy. simpl. apply Ip. apply (shrink_incl _ _ Sh); auto.
+    + intros e0 d. simpl. apply Id.
+    + simpl; auto.
+    + simpl; auto.
+    + intros e0 a [H|H]; [discriminate|]. simpl. auto.
+    + intros k. simpl. specialize (Io k). specialize (Sh (fun x => eid x =? k)). lia.
+    + intros e0 r0 a [H|H].
+      * inversion H; subst. repeat split; auto. lia.
+      * destruct (Ic e0 r0 a H) as (A & B & C). auto.
+    + intros R e0 a r0 c [H|H] [H'|H']; try discriminate.
+      * inversion H'; subst. destruct (Ine _ _ H) as (L & _). auto.
+      * eapply Ior; eauto.
+  - (* shutdown *)
+    constructor; rewrite ?Hl, ?Hx, ?Hn.
+    + intros y Hy. simpl. apply Ip. apply (shrink_incl _ _ Sh); auto.
+    + intros e d. simpl. apply Id.
+    + rewrite Fi. intros ->. simpl. exists (now s). split; auto. lia.
+    + intros i _. auto.
+    + intros e a [H|H]; [discriminate|]. destruct (Ine e a H) as (L & d & D & [Q|(i & Q & Q')]).
+      * split; auto. exists d; simpl; auto.
+      * rewrite (Ig2 i Q) in S0. discriminate.
+    + intros k. simpl. specialize (Io k). specialize (Sh (fun x => eid x =? k)). lia.
+    + intros e r a [H|H]; [discriminate|]. destruct (Ic e r a H) as (A & B & C). auto.
+    + rewrite Fr. intros R e a r c [H|H] [H'|H']; try discriminate. eapply Ior; eauto.
+  - (* add *)
+    assert (Fresh : forall y, In y (pend s) -> (eid x =? eid y) = false).
+    { intros y Hy. destruct (Ip y Hy). apply Nat.eqb_neq. lia. }
+    constructor; rewrite ?Hl, ?Hx, ?Fs, ?Fi, ?Fr, ?Hn.
+    + intros y Hy. destruct (grow_in _ _ _ Hc y Hy) as [->|Hy'].
+      * split; [lia|]. simpl. rewrite Nat.eqb_refl. auto.
+      * destruct (Ip y Hy'). split; [lia|]. simpl. rewrite (Fresh y Hy'). auto.
+    + intros e d. simpl. destruct (eid x =? e) eqn:E.
+      * apply Nat.eqb_eq in E. lia.
+      * intros H. specialize (Id e d H). lia.
+    + simpl; auto.
+    + simpl; auto.
+    + intros e a [H|H]; [discriminate|]. destruct (Ine e a H) as (L & d & D & Q). split; auto.
+      exists d. simpl. specialize (Id e d D). destruct (eid x =? e) eqn:E; [apply Nat.eqb_eq in E; lia|]. auto.
+    + intros k. simpl. rewrite Hc. cbv beta. specialize (Io k).
+      destruct (eid x =? k) eqn:E; simpl; [|lia].
+      apply Nat.eqb_eq in E. subst k.
+      assert (cnt (fun y => eid y =? eid x) (pend s) = 0).
+      { apply cnt_zero. intros y Hy. rewrite Nat.eqb_sym. auto. }
+      assert (cntD (eid x) (log s) = 0).
+      { destruct (cntD (eid x) (log s)) eqn:Z; auto.
+        destruct (cntD_pos (eid x) (log s)) as [a Ha]; [lia|].
+        destruct (Ine _ _ Ha) as (_ & d & D & _). specialize (Id _ _ D). lia. }
+      lia.
+    + intros e r a [H|H]; [discriminate|]. destruct (Ic e r a H) as (A & B & C). repeat split; auto.
+    + intros R e a r c [H|H] [H'|H']; try discriminate. eapply Ior; eauto.
+Qed.
+
+Lemma inv_mstar s s' : mstar s s' -> Inv s -> Inv s'.
+Proof.
+  induction 1; auto. apply inv_micro; auto.
+Qed.
+
+Lemma wpend_repeat_idle n : wpend (repeat WIdle n) = [].
+Proof. induction n; simpl; auto. Qed.
+
+Lemma inv_init n m md rc bc : Inv (init n m md rc bc).
+Proof.
+  constructor; unfold init, pend; simpl; try rewrite wpend_repeat_idle; simpl; try tauto; try discriminate.
+  intros k. unfold cnt; simpl. lia.
+Qed.
+
+Theorem inv_run n m md rc bc ls : Inv (run (init n m md rc bc) ls).
+Proof. eapply inv_mstar; [apply run_micro | apply inv_init]. Qed.
+
+(* the configuration is constant *)
+Lemma micro_recheck s s' : micro s s' -> recheck s' = recheck s.
+Proof.
+  intros M. destruct M as [? ? ? ? [? [? [? ?]]] | ? ? ? ? [? [? [[? [? [? ?]]] ?]]] | ? ? ? [? [? [[? [? [? ?]]] ?]]]
+    | ? ? ? ? [? [? [[? [? [? ?]]] ?]]] | | ? ? ? [? [? [[? [? [? ?]]] ?]]]]; auto.
+Qed.
+Lemma mstar_recheck s s' : mstar s s' -> recheck s' = recheck s.
+Proof. induction 1; auto; [apply micro_recheck; auto | congruence]. Qed.
+Lemma run_recheck n m md rc bc ls : recheck (run (init n m md rc bc) ls) = rc.
+Proof. rewrite (mstar_recheck _ _ (run_micro ls _)). reflexivity. Qed.
+
+(* ---------- from the invariant to the executable predicates ---------- *)
+
+Lemma delivered_in l e a : In (e, a) (delivered l) <-> In (EDeliver e a) l.
+Proof.
+  unfold delivered. rewrite in_flat_map. split.
+  - intros (x & Hx & H). destruct x; simpl in H; try tauto. destruct H as [H|[]]. inversion H; subst; auto.
+  - intros H. exists (EDeliver e a). split; simpl; auto.
+Qed.
+
+Theorem never_early_run n m md rc bc ls : never_early (log (run (init n m md rc bc) ls)) = true.
+Proof.
+  pose proof (inv_run n m md rc bc ls) as I. set (s := run _ ls) in *.
+  unfold never_early. apply forallb_forall. intros [e a] H. apply delivered_in in H.
+  destruct (i_ne s I e a H) as (_ & d & D & Q). rewrite D.
+  destruct Q as [Q|(i & Q & Q')].
+  - apply N.leb_le in Q. rewrite Q. reflexivity.
+  - rewrite Q. apply N.leb_le in Q'. rewrite Q'. apply orb_true_r.
+Qed.
+
+Lemma cntD_count k l : cntD k l = length (filter (Nat.eqb k) (map fst (delivered l))).
+Proof.
+  induction l as [|ev r]; simpl; auto. destruct ev; simpl; auto.
+  rewrite (Nat.eqb_sym k e). destruct (e =? k); simpl; auto.
+Qed.
+
+Lemma nodupb_count m : (forall k, length (filter (Nat.eqb k) m) <= 1) -> nodupb m = true.
+Proof.
+  induction m as [|x r]; simpl; auto. intros H. apply andb_true_iff. split.
+  - apply negb_true_iff. destruct (memb x r) eqn:E; auto.
+    unfold memb in E. apply existsb_exists in E as (y & Hy & E'). apply Nat.eqb_eq in E'. subst y.
+    specialize (H x). rewrite Nat.eqb_refl in H. simpl in H.
+    assert (0 < length (filter (Nat.eqb x) r)).
+    { clear -Hy. induction r; simpl in *; [tauto|]. destruct Hy as [->|Hy].
+      - rewrite Nat.eqb_refl. simpl. lia.
+      - destruct (x =? a); simpl; auto. specialize (IHr Hy). lia. }
+    lia.
+  - apply IHr. intros k. specialize (H k). destruct (k =? x); simpl in H; lia.
+Qed.
+
+Theorem at_most_once_run n m md rc bc ls : at_most_once (log (run (init n m md rc bc) ls)) = true.
+Proof.
+  pose proof (inv_run n m md rc bc ls) as I. set (s := run _ ls) in *.
+  unfold at_most_once. apply nodupb_count. intros k. rewrite <- cntD_count.
+  pose proof (i_once s I k). lia.
+Qed.
+
+Lemma cancel_at_in e : forall l c, cancel_at e l = Some c -> exists r, In (ECancel e r c) l.
+Proof.
+  induction l as [|ev l']; simpl; intros c H; [discriminate|].
+  destruct ev; try (destruct (IHl' c H) as [r0 Hr]; exists r0; auto).
+  destruct (cancel_at e l') as [c'|] eqn:E.
+  - inversion H; subst. destruct (IHl' c eq_refl) as [r0 Hr]. exists r0; auto.
+  - destruct (e0 =? e) eqn:E2; [|discriminate]. apply Nat.eqb_eq in E2. inversion H; subst. exists removed; auto.
+Qed.
+
+(* the repaired Poll: a delivery is never stamped after a completed Cancel of the same element *)
+Theorem cancel_honoured_run n m md bc ls : cancel_honoured 0 (log (run (init n m md true bc) ls)) = true.
+Proof.
+  pose proof (inv_run n m md true bc ls) as I. pose proof (run_recheck n m md true bc ls) as R.
+  set (s := run _ ls) in *.
+  unfold cancel_honoured. apply forallb_forall. intros [e a] H. apply delivered_in in H.
+  destruct (cancel_at e (log s)) as [c|] eqn:E; auto.
+  destruct (cancel_at_in e _ _ E) as [r Hr]. apply N.leb_le. rewrite N.add_0_r.
+  eapply (i_ord s I R); eauto.
+Qed.
+
+(* log order: after a Cancel of e has completed, no step delivers e *)
+Lemma log_grows_micro s s' : micro s s' -> exists l, log s' = l ++ log s.
+Proof.
+  intros M. destruct M; try (eexists [_]; simpl; eassumption). exists []; auto.
+Qed.
+Lemma log_grows s s' : mstar s s' -> exists l, log s' = l ++ log s.
+Proof.
+  induction 1.
+  - apply log_grows_micro; auto.
+  - exists []; auto.
+  - destruct IHclos_refl_trans1 as [l1 E1], IHclos_refl_trans2 as [l2 E2]. exists (l2 ++ l1).
+    rewrite E2, E1, app_assoc. reflexivity.
+Qed.
+
+Lemma no_deliver_after_cancel_micro s s' e :
+  micro s s' -> recheck s = true -> memb e (closed s) = true ->
+  (exists l, log s' = l ++ log s /\ forall a, ~ In (EDeliver e a) l) /\ memb e (closed s') = true.
+Proof.
+  intros M R C.
+  destruct M as [s s' Hn Hx [Fs [Fi [Fc Fr]]] Cm Sh Hl
+                |s s' ev Sp [Hn [Hx [[Fs [Fi [Fc Fr]]] Cm]]] Sh Hl
+                |s s' x [Hn [Hx [[Fs [Fi [Fc Fr]]] Cm]]] Hin Hc Hl Hd Hr
+                |s s' e0 r [Hn [Hx [[Fs [Fi [Fc Fr]]] Cm]]] Sh He Hl Hm
+                |s s' fc fi Hn Hx Cm Sh S0 S1 Fi Fr Hl
+                |s s' x [Hn [Hx [[Fs [Fi [Fc Fr]]] Cm]]] He Hc Hl];
+    (split; [|apply Cm; auto]).
+  - exists []; split; auto.
+  - exists [ev]; split; auto. intros a [H|[]]. subst ev. discriminate.
+  - exists [EDeliver (eid x) (now s)]; split; auto. intros a [H|[]]. inversion H; subst.
+    rewrite (Hr R) in C. discriminate.
+  - eexists [_]; split; [exact Hl|]. intros a [H|[]]. discriminate.
+  - eexists [_]; split; [exact Hl|]. intros a [H|[]]. discriminate.
+  - eexists [_]; split; [exact Hl|]. intros a [H|[]]. discriminate.
+Qed.
+
+Theorem cancel_then_never_delivered s s' e :
+  recheck s = true -> memb e (closed s) = true -> mstar s s' ->
+  exists l, log s' = l ++ log s /\ forall a, ~ In (EDeliver e a) l.
+Proof.
+  intros R C M. apply clos_rt_rt1n in M. induction M as [s|s s1 s2 M1 M2 IH].
+  - exists []; split; auto.
+  - destruct (no_deliver_after_cancel_micro s s1 e M1 R C) as [(l1 & E1 & N1) C1].
+    destruct IH as (l & E & Nl); auto.
+    { rewrite (micro_recheck _ _ M1); auto. }
+    exists (l ++ l1). split; [rewrite E, E1, app_assoc; auto|].
+    intros a H. apply in_app_or in H as [H|H]; [apply (Nl a H) | apply (N1 a H)].
+Qed.
